@@ -20,6 +20,16 @@ CLAIMED = {
                   "slice.indices (validated against CPython on 19600 cases; vf/sx_plugin.py); POSIX semantics of the scratch "
                   "directory. Item contents are concrete (file I/O realises them).",
              ref="3/C19"),
+ "C20": dict(cat="model_checking", tech="one-step induction + depth-2 BMC by symbolic execution (CrossHair/z3) of the real dictionaries on real files",
+             text="One inductive step from every pre-state of a bounded family (3 keys x {absent, v1, v2}, five life-cycle "
+                  "states) with solver-chosen key/value-kind, compared with a plain dict, including re-read after close+open; "
+                  "every path tree is exhausted. Keys and values are concrete per path (hashing/pickling realise them), so "
+                  "the solver's role here is to enumerate and prune the choice tree exhaustively - stated honestly as bounded "
+                  "model checking of the operation state machine.",
+             note="Trusted: CrossHair's dict/bytes models, pickle on realised data, the file system of the scratch directory. "
+                  "DBMDict only within one open session (dbm.dumb backend). For sync() on a closed dictionary any exception "
+                  "is accepted (the statement says 'raises'); the mapping operations must raise ValueError.",
+             ref="3/C20"),
 }
 
 NOT_APPLICABLE = {
